@@ -321,6 +321,31 @@ def run(ctx):
                              "no_failing_input_found": True})
     except Exception as ex:
         viol.append({"kind": "model evaluation failed", "error": repr(ex)[:500], "no_failing_input_found": True})
+    # Model/StepCurrent.v against stimulus._time_to_step (decimal delays and time steps, on and off the grid)
+    try:
+        from fractions import Fraction as Fr
+        import coqeval as _ce
+        from jaxley.stimulus import _time_to_step
+        tjobs, texprs = [], []
+        for _k in range(ctx.budget(30, 300)):
+            dtq = rng.choice([Fr(25, 1000), Fr(1, 20), Fr(1, 10), Fr(1, 100), Fr(1, 8)])
+            if rng.random() < 0.6:
+                tq = rng.randint(0, 400) * dtq                      # on the grid
+            else:
+                tq = Fr(rng.randint(0, 40000), 1000)                # arbitrary millisecond decimals
+            steps = tq / dtq
+            if abs(steps - round(steps)) != 0 and abs(steps - round(steps)) < Fr(1, 1000):
+                continue                                            # keep away from the 1e-6 tolerance boundary
+            tjobs.append((float(tq), float(dtq), int(_time_to_step(float(tq), float(dtq)))))
+            texprs.append(f"time_to_step ({tq.numerator} # {tq.denominator}) ({dtq.numerator} # {dtq.denominator})")
+        for (tf, dtf, real), o in zip(tjobs, _ce.coq_eval(["StepCurrent"], texprs, prelude="Local Open Scope Q_scope.", shard=60)):
+            evals += 1
+            model = int(o.replace("%Z", "").strip("()"))
+            if model != real:
+                viol.append({"kind": "stimulus._time_to_step differs from Model/StepCurrent.v", "t": tf, "dt": dtf, "code": real, "model": model})
+    except Exception as ex:
+        import traceback
+        viol.append({"kind": "step-current correspondence could not be evaluated", "error": repr(ex)[:300], "trace": traceback.format_exc()[-400:], "no_failing_input_found": True})
     import regress
     evals += regress.run("C08", viol)
     for v in viol:
